@@ -151,6 +151,7 @@ template <>
 struct PointOf<2> {
   typedef phosg::Vector2<int64_t> T;
   static T make(const std::array<int64_t, 2>& c) { return T(c[0], c[1]); }
+  static T make_stored(const std::array<int64_t, 2>& c, uint64_t) { return make(c); }
   static int64_t back(int64_t v) { return v; }
   static const char* name() { return ""; }
 };
@@ -158,6 +159,7 @@ template <>
 struct PointOf<3> {
   typedef phosg::Vector3<int64_t> T;
   static T make(const std::array<int64_t, 3>& c) { return T(c[0], c[1], c[2]); }
+  static T make_stored(const std::array<int64_t, 3>& c, uint64_t) { return make(c); }
   static int64_t back(int64_t v) { return v; }
   static const char* name() { return ""; }
 };
@@ -183,20 +185,43 @@ struct DoubleMap {
     if (!(fwd(g) == v)) VFAIL("coordinate-corrupted", "the tree handed out the coordinate ", v, " which no inserted point has");
     return g;
   }
-  static std::string describe() { return cat("grid coordinate g stands for the double (g - ", coord_map().b, ") * ", scale()); }
+  // Signed zeros: the grid line g == b is the coordinate zero, and IEEE 754 has two of them that compare equal (-0.0 == +0.0, neither
+  // is smaller). A point is the same point whichever zero it is spelled with: what is stored with one is looked up with the other.
+  //   zero mode (a / 8) % 4: 0 every zero is +0.0; 1 stored points carry -0.0, every query (at / exists / erase / box corners) +0.0;
+  //   2 stored +0.0, queries -0.0; 3 stored: -0.0 in every other insertion, queries: -0.0 on the even axes
+  // The model stays on the integer grid, i.e. it compares coordinates by IEEE ==.
+  static unsigned zero_mode() { return static_cast<unsigned>((coord_map().a / 8) % 4); }
+  static double query(int64_t g, size_t axis) {
+    double v = fwd(g);
+    unsigned zm = zero_mode();
+    if (v == 0.0 && (zm == 2 || (zm == 3 && (axis & 1) == 0))) return -0.0;
+    return v;
+  }
+  static double stored(int64_t g, uint64_t k) {
+    double v = fwd(g);
+    unsigned zm = zero_mode();
+    if (v == 0.0 && (zm == 1 || (zm == 3 && (k & 1)))) return -0.0;
+    return v;
+  }
+  static std::string describe() {
+    static const char* zn[4] = {"", "; stored points spell zero -0.0, queries +0.0", "; stored points spell zero +0.0, queries -0.0", "; zeros: -0.0 in every other insertion and on the even axes of queries"};
+    return cat("grid coordinate g stands for the double (g - ", coord_map().b, ") * ", scale(), zn[zero_mode()]);
+  }
 };
 template <size_t D>
 struct PointOfDouble;
 template <>
 struct PointOfDouble<2> : DoubleMap {
   typedef phosg::Vector2<double> T;
-  static T make(const std::array<int64_t, 2>& c) { return T(fwd(c[0]), fwd(c[1])); }
+  static T make(const std::array<int64_t, 2>& c) { return T(query(c[0], 0), query(c[1], 1)); }
+  static T make_stored(const std::array<int64_t, 2>& c, uint64_t k) { return T(stored(c[0], k), stored(c[1], k)); }
   static const char* name() { return "double"; }
 };
 template <>
 struct PointOfDouble<3> : DoubleMap {
   typedef phosg::Vector3<double> T;
-  static T make(const std::array<int64_t, 3>& c) { return T(fwd(c[0]), fwd(c[1]), fwd(c[2])); }
+  static T make(const std::array<int64_t, 3>& c) { return T(query(c[0], 0), query(c[1], 1), query(c[2], 2)); }
+  static T make_stored(const std::array<int64_t, 3>& c, uint64_t k) { return T(stored(c[0], k), stored(c[1], k), stored(c[2], k)); }
   static const char* name() { return "double"; }
 };
 
@@ -214,6 +239,7 @@ struct PointOfU64 {
   static uint64_t fwd(int64_t g) { return base() + static_cast<uint64_t>(g); }
   static int64_t back(uint64_t v) { return static_cast<int64_t>(v - base()); }
   static T make(const std::array<int64_t, 2>& c) { return T(fwd(c[0]), fwd(c[1])); }
+  static T make_stored(const std::array<int64_t, 2>& c, uint64_t) { return make(c); }
   static const char* name() { return "uint64"; }
   static std::string describe() { return cat("grid coordinate g stands for the uint64_t ", base(), " + g"); }
 };
@@ -227,6 +253,71 @@ struct Policy {
 struct Stats {
   bool nontrivial = false;
   uint64_t mutations = 0;
+  uint64_t failed_inserts = 0; // insertions that ended with the injected exception (mode 5)
+  uint64_t armed_inserts = 0;
+  uint64_t failed_but_stored = 0; // ... of which the entry was in the tree afterwards (the exception came from building the returned iterator)
+};
+
+// ---------------------------------------------------------------- a value type whose copy construction can fail (mode 5)
+//
+// ValueType is a template parameter: copying a value may throw (a std::string value throws bad_alloc, a handle type its own error).
+// After an insertion that ended with an exception the tree must still be a multiset a plain list could be: either the entry is in
+// it (the exception came from building the returned iterator, which holds a copy of the entry) or it is not (the entry could not be
+// constructed) - size(), iteration and every query agree with ONE of these two models, later operations work, and destroying the tree
+// releases everything. A size() that counts an entry no iteration or query produces agrees with neither. The k-th copy construction after arm(k) throws InjectedFailure;
+// copies are counted only while armed (around the insertion), moves never throw.
+struct InjectedFailure : std::runtime_error {
+  InjectedFailure() : std::runtime_error("C13: injected failure of a value copy") {}
+};
+struct ThrowingValue {
+  static inline int64_t live = 0;
+  static inline uint64_t countdown = 0, copies_from_dead = 0;
+  static constexpr uint64_t kAlive = 0xA11FE0A11FE0A11FULL;
+  int64_t v;
+  uint64_t canary;
+  ThrowingValue(int64_t v = 0) : v(v), canary(kAlive) { live++; }
+  ThrowingValue(const ThrowingValue& o) : v(o.v), canary(kAlive) {
+    if (countdown && --countdown == 0) throw InjectedFailure();
+    if (o.canary != kAlive) copies_from_dead++;
+    live++;
+  }
+  ThrowingValue(ThrowingValue&& o) noexcept : v(o.v), canary(kAlive) {
+    if (o.canary != kAlive) copies_from_dead++;
+    live++;
+  }
+  ThrowingValue& operator=(const ThrowingValue& o) {
+    if (countdown && --countdown == 0) throw InjectedFailure();
+    if (o.canary != kAlive || canary != kAlive) copies_from_dead++;
+    v = o.v;
+    return *this;
+  }
+  ThrowingValue& operator=(ThrowingValue&& o) noexcept {
+    if (o.canary != kAlive || canary != kAlive) copies_from_dead++;
+    v = o.v;
+    return *this;
+  }
+  ~ThrowingValue() {
+    canary = 0xDEADDEADDEADDEADULL;
+    live--;
+  }
+  operator int64_t() const { return v; }
+  friend bool operator==(const ThrowingValue& a, const ThrowingValue& b) { return a.v == b.v; }
+  friend bool operator==(const ThrowingValue& a, int64_t b) { return a.v == b; }
+  friend bool operator!=(const ThrowingValue& a, const ThrowingValue& b) { return a.v != b.v; }
+};
+template <typename V>
+struct ValueOps {
+  static void arm(unsigned) {}
+  static void disarm() {}
+  static int64_t live() { return 0; }
+  static uint64_t dead_copies() { return 0; }
+};
+template <>
+struct ValueOps<ThrowingValue> {
+  static void arm(unsigned k) { ThrowingValue::countdown = k; }
+  static void disarm() { ThrowingValue::countdown = 0; }
+  static int64_t live() { return ThrowingValue::live; }
+  static uint64_t dead_copies() { return ThrowingValue::copies_from_dead; }
 };
 
 enum Battery { LIGHT = 0, FULL = 1, LOOKUPS = 2, FULL_ABSENT = 3, MEDIUM = 4 };
@@ -276,14 +367,22 @@ struct ChainInfo {
   uint64_t erased = 0;
 };
 
-template <size_t D, typename P = PointOf<D>>
+template <size_t D, typename P = PointOf<D>, typename V = int64_t>
 struct KD {
   typedef typename P::T PT;
-  typedef phosg::KDTree<PT, int64_t> Tree;
+  typedef phosg::KDTree<PT, V> Tree;
   typedef Entry<D> E;
   typedef std::vector<E> Model;
 
+  // pt: the point as a QUERY spells it; spt: as insertion number k stores it (they differ only in the sign of zero coordinates of
+  // the double instantiation); same_pt: coordinate-wise IEEE equality, independent of the library's own Vector::operator==
   static PT pt(const std::array<int64_t, D>& c) { return P::make(c); }
+  static PT spt(const std::array<int64_t, D>& c, uint64_t k) { return P::make_stored(c, k); }
+  static bool same_pt(const PT& a, const PT& b) {
+    for (size_t d = 0; d < D; d++)
+      if (!(a.at(d) == b.at(d))) return false;
+    return true;
+  }
   static E from(const PT& p, int64_t v) {
     E e;
     for (size_t d = 0; d < D; d++) e.c[d] = P::back(p.at(d));
@@ -315,7 +414,7 @@ struct KD {
     for (auto it = t.begin(); it != end; ++it) {
       VCHECK(++guard <= m.size() + 1, "iteration-overrun", "iteration yields more than the ", m.size(), " entries of the model after ", w);
       got.push_back(from(it->first, it->second));
-      VCHECK((*it).first == it->first && (*it).second == it->second, "iterator-deref", "operator* and operator-> disagree after ", w);
+      VCHECK(same_pt((*it).first, it->first) && (*it).second == it->second, "iterator-deref", "operator* and operator-> disagree after ", w);
     }
     std::vector<E> seq(got);
     std::vector<E> exp(m);
@@ -431,7 +530,7 @@ struct KD {
       for (size_t d = 0; d < D; d++) in &= (e.c[d] >= lo[d] && e.c[d] < hi[d]);
       if (in) exp.push_back(e);
     }
-    std::vector<std::pair<PT, int64_t>> res;
+    std::vector<std::pair<PT, V>> res;
     try {
       res = t.within(pt(lo), pt(hi));
     } catch (const std::exception& ex) {
@@ -674,8 +773,12 @@ struct KD {
 
   // q == nullptr: mode 0 (the battery after every mutation); otherwise mode 2: the lookups between mutations are the
   // generated ones (PROBE / PROBE_LIVE / BOX / BATTERY) plus what the policy asks after a mutation
-  static void replay(const uint64_t* ops, size_t n, int64_t side, uint64_t salt, Stats& st, const Policy* q = nullptr) {
+  // inject (mode 5, V = ThrowingValue): the value field of INSERT / EMPLACE is v + 10 * k and the digit of INSERT_DUP v + 3 * k;
+  // k > 0 makes the k-th copy construction of a value during that insertion throw
+  static void replay(const uint64_t* ops, size_t n, int64_t side, uint64_t salt, Stats& st, const Policy* q = nullptr, bool inject = false) {
     alloc_balance::Scope heap;
+    const int64_t values_live_before = ValueOps<V>::live();
+    const uint64_t dead_copies_before = ValueOps<V>::dead_copies();
     {
       Tree t;
       Model m;
@@ -725,17 +828,55 @@ struct KD {
           case INSERT:
           case EMPLACE: {
             int64_t v = static_cast<int64_t>(s.value);
+            unsigned inj = 0;
+            if (inject) {
+              if (s.code == INSERT_DUP) {
+                inj = static_cast<unsigned>(v / 3);
+                v %= 3;
+              } else {
+                inj = static_cast<unsigned>((v / 10) % 10);
+                v %= 10;
+              }
+            }
+            const PT sp = spt(c, i);
+            const V val(v);
+            bool threw = false;
+            if (inj) st.armed_inserts++;
+            ValueOps<V>::arm(inj);
+            try {
 #ifdef C13_GATED
-            auto it = (s.code == EMPLACE) ? t.emplace(pt(c), v) : t.insert(pt(c), v);
+              auto it = (s.code == EMPLACE) ? t.emplace(sp, val) : t.insert(sp, val);
 #else
-            if (s.code == EMPLACE) throw std::logic_error("C13: emplace is only exercised by the gated build");
-            auto it = t.insert(pt(c), v);
+              if (s.code == EMPLACE) throw std::logic_error("C13: emplace is only exercised by the gated build");
+              auto it = t.insert(sp, val);
 #endif
-            VCHECK(it->first == pt(c) && it->second == v, "insert-iterator", "the iterator returned by ", kCodeNames[s.code], " does not designate the new entry at ", here);
-            E e;
-            e.c = c;
-            e.v = v;
-            m.push_back(e);
+              ValueOps<V>::disarm();
+              VCHECK(same_pt(it->first, sp) && it->second == v, "insert-iterator", "the iterator returned by ", kCodeNames[s.code], " does not designate the new entry at ", here);
+            } catch (const InjectedFailure&) {
+              ValueOps<V>::disarm();
+              threw = true;
+            }
+            bool stored = !threw;
+            if (threw) {
+              // The exception may come from constructing the entry (nothing was stored) or from building the returned iterator, which
+              // holds a copy of the entry (the entry is stored by then). The statement leaves open which of the two states the tree is
+              // in, not that it is in one of them: size() and the iteration must agree with each other, on the old multiset or on the
+              // old multiset plus this entry, and the battery below compares everything else with the model chosen that way.
+              st.failed_inserts++;
+              size_t visited = 0;
+              for (auto it = t.begin(); it != t.end(); ++it) VCHECK(++visited <= m.size() + 2, "iteration-overrun", "iteration does not end after an insertion that threw, at ", here);
+              VCHECK(t.size() == visited, "failed-insert:size-vs-iteration", "after an insertion that ended with an exception (copy #", inj, " of the value threw) size() is ", t.size(), " but iteration visits ", visited,
+                  " entries (the tree held ", m.size(), " before), at ", here);
+              VCHECK(visited == m.size() || visited == m.size() + 1, "failed-insert:entry-count", "after an insertion that ended with an exception the tree holds ", visited, " entries; it held ", m.size(), " before, at ", here);
+              stored = visited == m.size() + 1;
+              if (stored) st.failed_but_stored++;
+            }
+            if (stored) {
+              E e;
+              e.c = c;
+              e.v = v;
+              m.push_back(e);
+            }
             break;
           }
           case ERASE_LIVE:
@@ -803,6 +944,8 @@ struct KD {
       if (q) check_state(t, m, side, level == FULL ? FULL_ABSENT : LIGHT, salt, Where{ops, n, n, "at the end"}, 1 + salt);
     } // the tree is destroyed here, in whatever state the history left it
     VCHECK(!heap.leaked(), "leak", heap.excess(), " heap block(s) allocated during the history are still live after the tree was destroyed and LeakSanitizer reports a leak");
+    VCHECK(ValueOps<V>::live() == values_live_before, "value-leak", ValueOps<V>::live() - values_live_before, " value object(s) constructed during the history were not destroyed with the tree");
+    VCHECK(ValueOps<V>::dead_copies() == dead_copies_before, "value-used-after-destruction", "a value object was copied from / assigned to after its destructor ran");
   }
 
   // ---------------------------------------------------------------- tall chains (mode 4)
@@ -840,7 +983,7 @@ struct KD {
         e.c = chain_point(shape, n, i, salt);
         e.v = static_cast<int64_t>(i % 3);
         auto it = t.insert(pt(e.c), e.v);
-        VCHECK(it->first == pt(e.c) && it->second == e.v, "insert-iterator", "the iterator returned by insert #", i, " does not designate the new entry, building ", what);
+        VCHECK(same_pt(it->first, pt(e.c)) && it->second == e.v, "insert-iterator", "the iterator returned by insert #", i, " does not designate the new entry, building ", what);
         m.push_back(e);
       }
       auto queries = [&](const Where& w, uint64_t h0) {
